@@ -2,6 +2,7 @@
 import VDriver.Util
 import VDriver.Auth
 import VModel.StateRes
+import VModel.StateResSpecExec
 namespace V.Driver.StateresOps
 open V V.Json V.Driver V.Auth V.StateRes V.Driver.AuthOps
 
@@ -79,7 +80,11 @@ def handle (op : String) (args : Array String) : Option String :=
       | some ids =>
         -- C10: the model is the executable definition (the algorithm with the library's refinements), so the
         -- specification stream is the model's answer: a different result is a concrete violation
-        some (showIDs ids ++ "\t" ++ showIDs ids)
+        -- the specification stream is computed by the executable rendering of the definition (VModel/StateResSpecExec.lean),
+        -- which shares no loop with the model; version 1 keeps the model's answer
+        let algo := ((versionRow? p.ver).map (·.stateResAlgorithm)).getD 0
+        let specIDs := if algo == 2 || algo == 3 then V.StateResSpec.Exec.resolve algo p.sets p.auth p.rejected else ids
+        some (showIDs ids ++ "\t" ++ showIDs specIDs)
   | "stages", ver :: setsS :: authS :: rejS :: shaS :: evArgs =>
     match parseArgs ver setsS authS rejS shaS evArgs with
     | none => some "bad-op"
